@@ -11,7 +11,7 @@
    lump_gen and recover_gen are regenerated from the Go source on every run. *)
 From Coq Require Import ZArith QArith Qabs List Bool Arith Lia.
 From Inkfem Require Import Num.NumOps Gen.GenStiffness Gen.GenLoads Gen.GenRecover Spec.Stiffness Spec.Beam Spec.Superposition
-  Model.Types Model.Slice Model.Dof Model.Assemble Model.Recover Proofs.RecoverProofs Proofs.FieldProofs Proofs.SystemProofs Gen.GenAssemble Proofs.AssembleShape.
+  Model.Types Model.Slice Model.Dof Model.Assemble Model.Recover Proofs.RecoverProofs Proofs.FieldProofs Proofs.SystemProofs Gen.GenAssemble Proofs.AssembleShape Gen.GenPcg Gen.GenSolver Proofs.PcgProofs Proofs.PcgExact.
 Import ListNotations.
 Local Open Scope Q_scope.
 
@@ -121,3 +121,17 @@ Theorem C01_system_is_put_together_as_the_source_writes_it : forall (b : bar Q) 
   asm_bars_one_after_the_other = true.
 Proof. intros; split; [apply slice_placed_as_written | split; [apply node_load_as_written | apply steps_as_written]]. Qed.
 Print Assumptions C01_system_is_put_together_as_the_source_writes_it.
+
+(* from the solver's own stopping test to the exact response (model of its loop in Gen/GenPcg.v, the tolerance it is handed in
+   Gen/GenSolver.v, both regenerated): when the loop leaves because every entry of its r is within error / 2, the answer it returns
+   is within  error x sum_k |K^-1 i k|  of the exact solution of the system, entry by entry - the tolerance of C01_error_bound, now
+   reached from what the solver itself tests *)
+Theorem C01_what_the_solver_finds_good_enough_is_near_the_exact_response :
+  forall (n : nat) (Kinv K : nat -> nat -> Q) (f ustar : nat -> Q) (e : Q) (k : nat),
+  left_inverse n Kinv K ->
+  (forall i, (i < n)%nat -> mat_vec n K ustar i == f i) ->
+  0 <= e ->
+  (forall i, (i < n)%nat -> Qabs (pcg_r (pcg_iter n K k (pcg_init n K f)) i) <= solver_tolerance (O:=QOps) e) ->
+  forall i, (i < n)%nat -> Qabs (pcg_answer n K f k i - ustar i) <= e * fsum n (fun j => Qabs (Kinv i j)).
+Proof. exact good_enough_for_the_solver_is_near_the_exact_response. Qed.
+Print Assumptions C01_what_the_solver_finds_good_enough_is_near_the_exact_response.
